@@ -203,6 +203,23 @@ AtkOldAt(d, i, p) ==
   /\ Protected(d, i)
   /\ wire' = [wire EXCEPT ![d] = SubSeq(@, 1, p-1) \o <<[k |-> "gen", idx |-> i, dir |-> d]>> \o SubSeq(@, p, Len(@))]
 
+\* a record fabricated without keys (e.g. an unprotected alert) inserted at position p
+AtkForgeAt(d, p) ==
+  /\ p \in 1..(Len(wire[d]) + 1)
+  /\ wire' = [wire EXCEPT ![d] = SubSeq(@, 1, p-1) \o <<[k |-> "forged", idx |-> 0, dir |-> d]>> \o SubSeq(@, p, Len(@))]
+\* TLS 1.3: change_cipher_spec records are never protected, so the adversary can always
+\* fabricate one (or re-type a protected record as CCS: the receiver cannot tell); kind "ccs"
+AtkCCSAt(d, p) ==
+  /\ cfg.tls13 /\ p \in 1..(Len(wire[d]) + 1)
+  /\ wire' = [wire EXCEPT ![d] = SubSeq(@, 1, p-1) \o <<[k |-> "ccs", idx |-> 0, dir |-> d]>> \o SubSeq(@, p, Len(@))]
+\* ... and the record layer hands it upward unauthenticated.  After the handshake the
+\* connection must treat it as fatal (during the handshake it is ignored: Handshake.tla).
+PassPlainCCSAfterHandshake(d) ==
+  /\ wire[d] # <<>> /\ ~dead[d] /\ cfg.tls13 /\ Head(wire[d]).k = "ccs"
+  /\ wire' = [wire EXCEPT ![d] = Tail(@)]
+  /\ dead' = [dead EXCEPT ![d] = TRUE]
+  /\ UNCHANGED <<cfg, wr, rd, sent, acc, appW, appR, rbuf, pend, natk>>
+
 AtkFlip(d) == \E i \in 1..Len(wire[d]) : AtkFlipAt(d, i)
 AtkDrop(d) == \E i \in 1..Len(wire[d]) : AtkDropAt(d, i)
 AtkDup(d) == \E i \in 1..Len(wire[d]) : AtkDupAt(d, i)
@@ -215,6 +232,40 @@ Atk(d) ==
   /\ natk < MaxAtk /\ natk' = natk + 1
   /\ AtkFlip(d) \/ AtkDrop(d) \/ AtkDup(d) \/ AtkSwap(d) \/ AtkReflect(d) \/ AtkOld(d)
   /\ UNCHANGED <<cfg, wr, rd, sent, acc, appW, appR, rbuf, pend, dead>>
+
+(***************************************************************************)
+(* Hypothetical presentation (used by trace validation of C02): what the   *)
+(* receiver of d must do if the item sequence `items` is presented to it   *)
+(* in the current state - "acc" for each genuine-next item, "rej" at the   *)
+(* first item that is not, nothing after that.  The harness restores the   *)
+(* receiver's state after each such experiment, so the state is unchanged. *)
+(***************************************************************************)
+RECURSIVE Expect(_, _, _, _, _)
+Expect(d, items, n, ep, sq) ==
+  IF items = <<>> THEN <<>>
+  ELSE LET it == Head(items)
+           inr == it.k = "gen" /\ it.dir = d /\ it.idx = n + 1 /\ it.idx <= Len(sent[d])
+           ok == /\ inr
+                 /\ Counted(sent[d][it.idx]) => (sent[d][it.idx].epoch = ep /\ sent[d][it.idx].seq = sq)
+       IN IF ok THEN <<"acc">> \o Expect(d, Tail(items), n + 1, ep,
+                                        IF Counted(sent[d][it.idx]) THEN sq + 1 ELSE sq)
+          ELSE <<"rej">>
+
+Try(d, items, outs) ==
+  /\ ~dead[d]
+  /\ outs = Expect(d, items, Len(acc[d]), rd[d].epoch, rd[d].seq)
+  /\ UNCHANGED vars
+
+\* alerts a receiver may send when it rejects a record (C02: "fatal integrity/decoding error")
+IntegrityAlerts == {20, 21, 22, 50, 10, 47}   \* bad_record_mac, decryption_failed, record_overflow,
+                                              \* decode_error, unexpected_message, illegal_parameter
+\* C02 RejectIsFatal: what must be observable at the API after a rejection
+FatalObserved(d, o) ==
+  /\ dead[d]
+  /\ o.closed /\ ~o.resumable          \* connection closed, session not resumable
+  /\ o.alertLevel = 2 /\ o.alertDesc \in IntegrityAlerts   \* fatal alert was the next thing on the wire
+  /\ o.delivered = 0                    \* no data delivered by the failing call
+  /\ UNCHANGED vars
 
 (***************************************************************************)
 (* Properties                                                              *)
